@@ -109,7 +109,13 @@ FreeIdx == {i \in 1..Len(cand) : status[i] = "free"}
 NextIdx(rem) ==
     LET tb == Min(rem, cfg.batch)
         n  == IF tb < 1 THEN 1 ELSE tb
-    IN  {i \in FreeIdx : Cardinality({j \in FreeIdx : j < i}) < n}
+        free == FreeIdx
+        \* the n smallest free indexes (n <= batch size; linear in the number of candidates)
+        Pick[k \in 0..n] == IF k = 0 THEN {}
+                            ELSE LET rest == free \ Pick[k - 1]
+                                 IN  IF rest = {} THEN Pick[k - 1]
+                                     ELSE Pick[k - 1] \cup {CHOOSE i \in rest : \A j \in rest : i <= j}
+    IN  Pick[n]
 
 \* x[id] = manager.next(max_num_points - total_num_launched) and, if a job came out,
 \* total_num_launched += its size; set_initial_guess(x[id], y[id])
@@ -451,7 +457,7 @@ NoSameThreadConcurrent == \A t \in W : active[t] <= 1
 \* each returned value is stored / loaded at the point it was computed for
 ValueAtItsPoint == /\ \A r \in loaded : r.v = r.p
                    /\ \A i \in 1..Len(stored) : stored[i].v = stored[i].p
-                   /\ \A r, s \in loaded : r.p = s.p => r = s
+                   /\ Cardinality({r.p : r \in loaded}) = Cardinality(loaded)     \* one value per point
 
 \* x[id] / y[id] are never touched by main while worker id owns them, and the flag protocol says who owns them
 NoRace == ~race
